@@ -9,7 +9,7 @@ CFG = {
     "seq": [("shm", "def", "table", 45, 400), ("shm", "def", "malformed", 12, 120), ("shm", "def", "remove", 8, 80),
             ("shm", "lim", "table", 4, 40), ("mem", "def", "table", 10, 100), ("mem", "def", "malformed", 4, 40)],
     "limit": None,
-    "conc": "table", "conc_quick": 22,
+    "conc": "table", "conc_quick": 10,
     "conc2_quick": (3, 60), "conc2_thorough": (6, None),
     "rand": ("table", 6, 80),
 }
